@@ -13,7 +13,7 @@ from yaml.events import (
 
 from yatiml.representers import (EnumRepresenter, Representer,
                                  PathRepresenter, UserStringRepresenter)
-from yatiml.util import is_string_like
+from yatiml.util import is_string_like, yaml12_float_regex
 
 
 logger = logging.getLogger(__name__)
@@ -163,6 +163,10 @@ class Dumper(yaml.SafeDumper):
 
 
 Dumper.add_representer(OrderedDict, Dumper.represent_ordereddict)
+# The Loader reads YAML 1.2 floats, so strings that look like one (e.g. 1e5,
+# which PyYAML's YAML 1.1 rules consider a string) must be quoted on output.
+Dumper.add_implicit_resolver(
+        'tag:yaml.org,2002:float', yaml12_float_regex, list('-+0123456789.'))
 Dumper.add_representer(PosixPath, PathRepresenter())
 Dumper.add_representer(WindowsPath, PathRepresenter())
 
